@@ -6,6 +6,8 @@
 #    without it);
 #  * extra "clock": kv/memory/lease.go and kv/sqlite3/lease.go regenerated from the
 #    repository's *current* text with time.Now() replaced by a settable clock.
+#  * extra "clockfile:<repo-relative .go file>:<package>": the same for any one file (C31:
+#    util/hashcash/hashcash.go and spec/pow/pow.go).
 #  * extra "file:<repo-relative path>=<verif-relative source>": adds one overlay-only
 #    file (used by C47 to export cmd/internal/listen through a shim package).
 set -eu
@@ -33,6 +35,26 @@ var VerifNow = time.Now
 EOG
         entries="$entries, \"$src\": \"$gen\", \"$REPO/kv/$pkg/verif_clock_overlay.go\": \"$clk\""
       done;;
+    clockfile:*:*)
+      # clockfile:<repo-relative .go file>:<package name>: that file regenerated from the
+      # repository's *current* text with time.Now() / time.Since(x) reading a settable clock
+      # (VerifNow, an overlay-only variable of the package; default time.Now)
+      spec="${x#clockfile:}"; rel="${spec%%:*}"; pkg="${spec##*:}"
+      tag="$(basename "$OUT" .json)"
+      src="$REPO/$rel"
+      [ -f "$src" ] || { echo "overlay clock source $src missing" >&2; exit 1; }
+      gen="$D/$tag-$(echo "$rel" | tr '/' '_')"
+      sed -e 's/time\.Now()/VerifNow()/g' -e 's/time\.Since(\([^()]*\))/VerifNow().Sub(\1)/g' "$src" > "$gen"
+      clk="$D/$tag-$pkg-clockvar.go"
+      cat > "$clk" <<EOG
+package $pkg
+
+import "time"
+
+// VerifNow is the clock this package reads (overlay-only file).
+var VerifNow = time.Now
+EOG
+      entries="$entries, \"$src\": \"$gen\", \"$(dirname "$src")/verif_clock_overlay.go\": \"$clk\"";;
     file:*=*)
       # file:<path relative to the repo>=<path relative to /verif>: an overlay-only
       # file (e.g. an export shim for an internal package); nothing is written to the repo
